@@ -338,6 +338,12 @@ impl HllSketch {
                         )));
                     }
 
+                    // a coupon list always has 8 slots; with more it would outgrow the set it is promoted to
+                    if lg_arr != 3 {
+                        return Err(Error::deserial(format!(
+                            "LIST mode lg_arr: expected 3, got {lg_arr}"
+                        )));
+                    }
                     let lg_arr = lg_arr as usize;
                     let coupon_count = state as usize;
                     let list = List::deserialize(cursor, lg_arr, coupon_count, empty, compact)?;
